@@ -70,6 +70,24 @@ Proof.
   generalize dependent (binom n (S k)). generalize dependent (binom n k). intros a b H. nia.
 Qed.
 
+(* the Pascal-recursion binomial is the factorial quotient n! / (k! (n-k)!) *)
+Lemma binom_fact : forall n k, (k <= n)%nat -> (binom n k * (fact k * fact (n - k)) = fact n)%nat.
+Proof.
+  intros n. induction k as [|k IH]; intros Hk.
+  - rewrite binom_0_r, Nat.sub_0_r. cbn [fact]. lia.
+  - specialize (IH ltac:(lia)).
+    pose proof (binom_down n k) as D.
+    replace (n - k)%nat with (S (n - S k)) in IH by lia.
+    change (fact (S (n - S k))) with (S (n - S k) * fact (n - S k))%nat in IH.
+    change (fact (S k)) with (S k * fact k)%nat.
+    assert (E : (S k * binom n (S k) = S (n - S k) * binom n k)%nat).
+    { replace (S (n - S k)) with (n - k)%nat by lia.
+      generalize dependent (binom n (S k)). generalize dependent (binom n k). intros a _ b D. nia. }
+    rewrite <- IH.
+    transitivity ((S k * binom n (S k)) * (fact k * fact (n - S k)))%nat; [ring|].
+    rewrite E. ring.
+Qed.
+
 (* ---------------------------------------------------------------- Z level *)
 Open Scope Z_scope.
 
